@@ -858,6 +858,9 @@ func (s *PebbleScanner) MigrateFromJSON(jsonPath string) (int, error) {
 	if err != nil {
 		return 0, fmt.Errorf("invalid json start: %w", err)
 	}
+	if d, ok := t.(json.Delim); !ok || d != '{' {
+		return 0, fmt.Errorf("invalid json start: top-level value is not an object")
+	}
 
 	processed := 0
 	foundSigs := false
@@ -926,6 +929,18 @@ func (s *PebbleScanner) MigrateFromJSON(jsonPath string) (int, error) {
 			var ignore interface{}
 			dec.Decode(&ignore)
 		}
+	}
+
+	// The object must be closed and nothing may follow it: dec.More() is false at the end of the
+	// input as well as at '}' (or at a stray ']'), so a file cut after the signatures array, or
+	// one closed with the wrong bracket, would otherwise be reported as migrated.
+	if t, err = dec.Token(); err != nil {
+		return processed, fmt.Errorf("unterminated json object: %w", err)
+	} else if d, ok := t.(json.Delim); !ok || d != '}' {
+		return processed, fmt.Errorf("malformed json: expected closing '}'")
+	}
+	if _, err = dec.Token(); err != io.EOF {
+		return processed, fmt.Errorf("malformed json: data after the top-level object")
 	}
 
 	if !foundSigs {
